@@ -1,2 +1,73 @@
+"""Search cases over the REAL English / Japanese grammars (rule functions obtained through the real read_params)."""
+import numpy as np
+
+from vlib import env, treegen, search, synth
+from vlib.runner import stable_hash
+
+_params = {}
+
+
+def params(lang, seen):
+    key = (lang, seen)
+    if key not in _params:
+        env.install(lang)
+        from depccg.allennlp.utils import read_params
+        from depccg.cat import Category
+        cfg = 'config_en.jsonnet' if lang == 'en' else 'config_ja.jsonnet'
+        b, u, _, targets = read_params(env.model_path(cfg), True, not seen)
+        if lang == 'en':
+            roots = [Category.parse(s) for s in 'S[dcl]|S[wq]|S[q]|S[qem]|NP'.split('|')]
+        else:
+            roots = list(treegen.index('ja').roots)
+        _params[key] = (b, u, roots)
+    return _params[key]
+
+
+def gen_real_case(rng, lang, nbest=1):
+    seen = rng.random() < 0.6
+    binary, unary, roots = params(lang, seen)
+    ix = treegen.index(lang)
+    tok = (lambda r: treegen.en_token(r, 'all', 'all')) if lang == 'en' else (lambda r: treegen.ja_token(r, 'all'))
+    tree = treegen.licensed_tree(rng, lang, tok, max_leaves=rng.choice((2, 3, 4, 5)), hard_max=5)
+    gold = [leaf.cat for leaf in tree.leaves]
+    n = len(gold)
+    cats = []
+    for c in gold:
+        if c not in cats:
+            cats.append(c)
+    while len(cats) < min(len(gold) + rng.randint(1, 3), 7):
+        c = rng.choice(ix.inventory)
+        if c not in cats:
+            cats.append(c)
+    rng.shuffle(cats)
+    T = len(cats)
+    fam = rng.choice(('uniform', 'ties', 'softmax', 'deceptive'))
+    if fam == 'softmax':
+        tag, dep = synth.logsoftmax_scores(rng, n, T)
+    else:
+        tag, dep = synth.dyadic_scores(rng, n, T, fam)
+    if rng.random() < 0.7:
+        for i, c in enumerate(gold):                 # make the generating derivation attractive
+            tag[i, cats.index(c)] = max(tag[i].max(), -0.25 if fam != 'softmax' else tag[i].max())
+    cfg = {'unary_penalty': rng.choice((0.0, 0.125, 0.5)), 'nbest': nbest, 'pruning_size': rng.choice((2, 3, 3, T)),
+           'use_beta': False, 'beta': 0.00001, 'max_step': 20000, 'max_length': 250}
+    return {'kind': 'real', 'lang': lang, 'seen_rules': seen, 'grammar': None, 'binary': binary, 'unary': unary,
+            'head_left': lang == 'en', 'cats': cats, 'roots': roots, 'sentences': [([t['word'] for t in tree.tokens], tag, dep)],
+            'config': cfg, 'family': fam, 'exact': fam != 'softmax'}
+
+
 def run_real_cases(E, rng, spec, R, nontrivial=None):
-    pass
+    lang = spec['lang']
+    env.install(lang)
+    for i in range(spec['cases']):
+        try:
+            case = gen_real_case(rng, lang, nbest=1 if rng.random() < 0.7 else rng.choice((2, 3)))
+        except LookupError:
+            continue
+        sums = search.run_and_check(E, case, sample=i % 20 == 0)
+        fp = stable_hash(search.case_to_json(case))
+        for s in sums:
+            R.case(fp, bool(nontrivial(s, case)) if nontrivial else True)
+            R.count(f'real-grammar:{lang}-sentences')
+        if R.out_of_time():
+            break
